@@ -92,7 +92,8 @@ class SpanActionContext(ActionContext):
         for span_processor in self.trigger_context.config.span_processors:
             try:
                 span = span_processor.create_span(name, self.trigger_context.id, self.location_action.tracepoint.id)
-                if span:
+                # (by identity: a span object can be falsy, and is then still a span that has been opened)
+                if span is not None:
                     spans.append(span)
             except BaseException:
                 deep.logging.exception("Failed to create span with processor %s", span_processor)
